@@ -23,22 +23,81 @@ def ctlEmpty (t : Tok) : Bool :=
   | .action | .void | .lang .. => t.txt.isEmpty
   | _ => true
 
-/-- a `MathBeginToken` names an equation environment, never one with an `end_func` -/
+/-- an accent macro is a key of `accent_macros` with a non-empty name list -/
+def accentOk (T : PTables) (txt : Str) : Bool :=
+  match T.accents.find? (·.1 == txt) with
+  | some a => !a.2.isEmpty
+  | none => false
+
+/-- table invariants of a token: a `MathBeginToken` names an equation environment, never one
+    with an `end_func`; a `SpecialToken` is a key of `special_tokens`; an `AccentToken` is a key
+    of `accent_macros` (the look-ups `special_tokens[tok.txt]`, `accent_macros[tok.txt][0]`
+    cannot raise) -/
 def mbOk (T : PTables) (t : Tok) : Bool :=
   match t.kind with
   | .mathBegin _ => !(endFuncNames T).contains t.txt
+  | .special => (T.toTables.specialVal t.txt).isSome
+  | .accent => accentOk T t.txt
   | _ => true
 
 /-- tokens that may be stored in a definition (they are re-stamped on use) -/
 def storedOk (T : PTables) (t : Tok) : Bool := !isMathTok t && ctlEmpty t && mbOk T t
 
+/-- number of arguments a handler indexes (`args[k]` for `k <` this number) -/
+def handlerArity : Handler → Nat
+  | .none => 0
+  | .newcommand => 5
+  | .newtheorem => 3
+  | .theorem _ => 1
+  | .heading => 3
+  | .phantom => 1
+  | .hspace => 2
+  | .cite => 1
+  | .loadDefs => 1
+  | .loadModule _ => 2
+  | .foreignlanguage => 3
+  | .selectlanguage => 1
+  | .beginOtherlang => 1
+  | .endOtherlang => 0
+  | .endOtherlangStar => 0
+  | .substack => 1
+  | .proof => 1
+  | .bibCite => 3
+  | .footcite => 3
+  | .xspace => 0
+  | .gls _ _ _ => 2
+  | .newacronym => 3
+  | .newglossaryentry => 2
+  | .parseGlsdefs => 2
+  | .opaqueH _ => 0
+
+/-- arguments of which a handler takes the first or last token without a test
+    (`args[1][0]`, `args[2][-1]`): they must be mandatory arguments, which are never empty -/
+def handlerNeedsA : Handler → List Nat
+  | .newcommand => [1]
+  | .heading => [2]
+  | .foreignlanguage => [2]
+  | _ => []
+
+/-- a definition is consistent with its argument string: the handler finds every argument it
+    indexes, and every `#k` of the replacement and extraction texts refers to an argument -/
+def arityOk (m : MacroDef) : Bool :=
+  decide (handlerArity m.handler ≤ m.args.length)
+  && (handlerNeedsA m.handler).all (fun k => m.args[k]? == some 'A')
+  && (m.repl ++ m.extract).all (fun t =>
+        match argRef t with
+        | some k => decide (1 ≤ k) && decide (k ≤ m.args.length)
+        | none => true)
+
 def macroToksOk (T : PTables) (m : MacroDef) : Bool :=
   m.repl.all (storedOk T) && m.defaults.all (·.all (storedOk T)) && m.extract.all (storedOk T)
+  && arityOk m
 
 /-- environment bookkeeping: an equation environment has no `end_func` name, and an
     environment with `end_func` carries one of the declared names -/
 def envOk (T : PTables) (e : MacroDef) : Bool :=
   (!e.isEqu || !(endFuncNames T).contains e.name) && (e.endFunc == .none || (endFuncNames T).contains e.name)
+  && decide (handlerArity e.endFunc = 0)
 
 def allTableEnvs (T : PTables) : List MacroDef :=
   T.environmentDefs ++ (T.packageModules ++ T.classModules).flatMap (·.envs)
@@ -57,6 +116,20 @@ structure PTables.WFInv (T : PTables) : Prop where
   modules_ok : ∀ md ∈ T.packageModules ++ T.classModules, ∀ m ∈ md.macros ++ md.envs, macroToksOk T m = true
   envs_ok : ∀ e ∈ allTableEnvs T, envOk T e = true
   default_env : (endFuncNames T).contains T.mathDefaultEnv = false
+  /-- accent macros have at least one Unicode name part -/
+  accent_names : ∀ a ∈ T.accents, a.2 ≠ []
+  /-- `#` (a parameter character without digit is a SpecialToken) is a key of `special_tokens` -/
+  special_hash : (T.toTables.specialVal ['#']).isSome = true
+  /-- the default settings 'en' exist; every language has non-empty placeholder collections,
+      a default operator text and a non-empty `lang_change` list -/
+  lang_en : (settingsOf T "en".toList).isSome = true
+  langs_ok : ∀ l ∈ T.langs, l.inlineRepl ≠ [] ∧ l.displayRepl ≠ [] ∧ l.langChange ≠ [] ∧ l.opDefault.isSome = true
+  /-- `item_default_label` is not empty -/
+  item_labels : T.itemDefaultLabel ≠ []
+  /-- babel's `language_map` knows its fall-back 'english' -/
+  babel_english : (T.babelMap.find? (·.1 == "english".toList)).isSome = true
+  /-- the ASCII digits are decimal digits with their usual values (`int('#7'[1])`) -/
+  decimal_ascii : ∀ c ∈ "0123456789".toList, decimalValue T.decimalZeros c = some (c.toNat - 48)
 
 /-! ### token invariants -/
 
@@ -108,6 +181,13 @@ structure G0 (T : PTables) (nroot : Nat) (st : PState) : Prop where
   macros : ∀ m ∈ st.macros ++ st.envs, macroToksOk T m = true
   envs : ∀ e ∈ st.envs, envOk T e = true
   gloss : glossOk T st.glossary
+  /-- `item_lab_stack` is never popped below its default -/
+  items : st.itemStack ≠ []
+  /-- every entry of the language stack names existing settings -/
+  langs : ∀ e ∈ st.langStack, (settingsOf T e.1).isSome = true
+  /-- one rotation record per language, with non-empty collections -/
+  rots : (∀ l ∈ T.langs, (rotOf st l.code).isSome = true) ∧
+         (∀ r ∈ st.rots, r.inl ≠ [] ∧ r.disp ≠ [] ∧ r.chg ≠ [])
 
 /-- `G nroot st`: `G0`, the root frame (`nest = 1`) parses the root document, and we are
     inside some `parser_work` frame -/
@@ -118,10 +198,24 @@ structure G (T : PTables) (nroot : Nat) (st : PState) : Prop extends G0 T nroot 
 /-- the functions of the expander restore `latex` and the ghost nesting depth -/
 def Same (st st' : PState) : Prop := st'.latex = st.latex ∧ st'.nest = st.nest
 
-/-- postcondition on an outcome: nothing is claimed for `fatal`, `crash`, `outOfFuel` -/
+/-- Crash sites of the expander model (every place where the Python code could raise) that are
+    NOT shown unreachable.  The two `opaque …` markers stand for code that is not modelled
+    (cleveref reads a `.sed` file with regular expressions); `cap_first` raises on an
+    empty TextToken: the only one the model can create is the title of a theorem declared with an
+    empty title, which is consumed by the main loop at once and never stored in the glossary —
+    an invariant about buffer *order* that the token-local bundle does not carry (open
+    obligation, tested on the implementation by C07).  `tex2txt_crashSites` states that the model crashes nowhere else. -/
+def allowedCrash : List String := [
+  "opaque module (not modelled)",
+  "opaque handler (not modelled)",
+  "glossaries.py:cap_first:txt[0]"]
+
+/-- postcondition on an outcome: nothing is claimed for `fatal` and `outOfFuel`; a `crash`
+    (an unhandled Python exception) may only come from one of the `allowedCrash` sites -/
 def Post {α} (x : Outcome (α × PState)) (Q : α → PState → Prop) : Prop :=
   match x with
   | .ok (a, s) => Q a s
+  | .crash site => site ∈ allowedCrash
   | _ => True
 
 /-- standard frame: invariant kept, `latex`/`nest` restored -/
@@ -226,9 +320,14 @@ def SpecModDesc (fuel : Nat) : Prop :=
   ∀ (toks : List Tok) (st : PState), G T nroot st → BL T st.latex.length toks →
     Post (modifyDescription T fuel toks st) (fun r st' => Good T nroot st st' ∧ BL T st.latex.length r)
 
+/-- what a handler may assume about the argument list it receives -/
+def HandlerArgs (h : Handler) (args : List (List Tok)) : Prop :=
+  handlerArity h ≤ args.length ∧ ∀ k ∈ handlerNeedsA h, ∃ a, args[k]? = some a ∧ a ≠ []
+
 def SpecHandler (fuel : Nat) : Prop :=
   ∀ (h : Handler) (buf : Buf) (mac : MacroDef) (args : List (List Tok)) (pos : Nat) (st : PState),
     G T nroot st → BL T st.latex.length buf → (∀ a ∈ args, BL T st.latex.length a) → pos < st.latex.length →
+    HandlerArgs h args →
     Post (callHandler T fuel h buf mac args pos st) (fun r st' => Good T nroot st st' ∧ BL T st.latex.length r)
 
 /-- the buffer of a maths section: at most one maths-class token (pushed back by the loop
